@@ -1172,7 +1172,7 @@ def oracle_retune(chk, rng, max_size):
         obj.r0 = c * r0
         rebuild()
         A2, Q2 = mats()
-        if not (close(A2, A0, 1e-8) and close(Q2, Q0 * c ** (-5. / 3), 1e-8)):
+        if not (close(A2, A0, 1e-6) and close(Q2, Q0 * c ** (-5. / 3), 1e-4)):     # eps·cond(Czz): the scaling factor is not a power of two (a stale B is off by O(1))
             chk.fail("retune:r0:" + variant, "%s screen (size=%d, par=%d, pixel_scale=%r, r0=%r, L0=%r) re-tuned to r0 = %r·r0 by setting the "
                      "attribute and rebuilding the matrices: A must be unchanged and B·Bᵀ scale by c^(-5/3); A changed by %.3g, B·Bᵀ is off by %.3g "
                      "(relative to the largest entry)" % (variant, size, par, px, r0, L0, c,
@@ -1193,7 +1193,7 @@ def oracle_retune(chk, rng, max_size):
     if fresh is None:
         return
     Af, Bf = numpy.array(fresh.A_mat, dtype=float), numpy.array(fresh.B_mat, dtype=float)
-    if not (close(A3, Af, 1e-7) and close(Q3, Bf @ Bf.T, 1e-7)):
+    if not (close(A3, Af, 1e-6) and close(Q3, Bf @ Bf.T, 1e-4)):
         chk.fail("retune:L0:" + variant, "%s screen (size=%d, par=%d, pixel_scale=%r, r0=%r, L0=%r) re-tuned to L0 = %r by setting the attribute and "
                  "rebuilding the matrices differs from a fresh screen built with that L0: A by %.3g, B·Bᵀ by %.3g (relative to the largest entry)"
                  % (variant, size, par, px, r0, L0, f * L0, float(numpy.max(numpy.abs(A3 - Af)) / numpy.max(numpy.abs(Af))) if A3.shape == Af.shape else float("nan"),
